@@ -372,7 +372,8 @@ class MediaCombineDisallowed(Exception):
         return self.args[0]
 
     def _combinable(rule):
-        combinable = rule.COMMENT, rule.STYLE_RULE, rule.IMPORT_RULE
+        # an @import kept by resolveImports may not be put into @media either
+        combinable = rule.COMMENT, rule.STYLE_RULE
         return rule.type in combinable
 
 
